@@ -437,8 +437,8 @@ func Compare(want model.Outcome, got Obs) string {
 		if got.Node != want.Node {
 			return fmt.Sprintf("line %q attributed to node %q, want %q", got.Text, got.Node, want.Node)
 		}
-		if want.Plain && got.Text != want.Text {
-			return fmt.Sprintf("line text %q, want %q", got.Text, want.Text)
+		if !model.TextMatches(want.Text, want.Nums, got.Text) {
+			return fmt.Sprintf("line text %q, want %q%s", got.Text, want.Text, numNote(want.Nums))
 		}
 		if !tagsEq(want.Tags, got.Tags) {
 			return fmt.Sprintf("line %q tags %q, want %q", got.Text, got.Tags, want.Tags)
@@ -455,8 +455,8 @@ func Compare(want model.Outcome, got Obs) string {
 		}
 		for i, w := range want.Opts {
 			g := got.Opts[i]
-			if w.Plain && g.Text != w.Text {
-				return fmt.Sprintf("option %d text %q, want %q", i, g.Text, w.Text)
+			if !model.TextMatches(w.Text, w.Nums, g.Text) {
+				return fmt.Sprintf("option %d text %q, want %q%s", i, g.Text, w.Text, numNote(w.Nums))
 			}
 			if !tagsEq(w.Tags, g.Tags) {
 				return fmt.Sprintf("option %d tags %q, want %q", i, g.Tags, w.Tags)
@@ -467,6 +467,13 @@ func Compare(want model.Outcome, got Obs) string {
 		}
 	}
 	return ""
+}
+
+func numNote(nums []float64) string {
+	if len(nums) == 0 {
+		return ""
+	}
+	return fmt.Sprintf(" (\\x00i\\x00 = any integral/shortest-round-trip rendering of %v)", nums)
 }
 
 // LogDiff compares two host logs ("" = equal).
